@@ -9,6 +9,10 @@ def configs(tier):
         dict(callers=['fin', 'inf'], capacity=2, backpressure=False),
         dict(callers=['fin', 'inf'], capacity=1, backpressure=False),
         dict(callers=[], capacity=2, backpressure=False, stream=[2, 1]),
+        # the engine behind Server.stream with the smallest capacity: the consumer takes one output and walks away with
+        # elements still to come (the feeder holds one and has its end marker to deliver when nobody reads the hand-off
+        # queue any more); the same configuration through the whole Server is in the thorough tier (> 25 min)
+        ('models.fifo_scn:FifoScn', dict(N=4, concurrency=1, capacity=1, lazy_take=1, fn_fail=False)),
     ]
     if tier == 'thorough':
         cs += [
@@ -16,6 +20,7 @@ def configs(tier):
             dict(callers=['fin', 'inf', 'inf'], capacity=3, backpressure=False),
             dict(callers=[], capacity=2, backpressure=False, stream=[3, 1]),
             dict(callers=[], capacity=1, backpressure=False, stream=[3, 2]),
+            dict(callers=[], capacity=1, backpressure=False, stream=[3, 1]),
             dict(callers=['fin', 'inf'], capacity=2, backpressure=False, work_fail=True),
         ]
     return cs
